@@ -1,6 +1,8 @@
 /* C19 (second part) and C17 (binary output): asm_create_bin_file writes exactly
  * the bytes [0, offset) and reports success only if all of them reached the
- * file and the file was closed successfully. */
+ * file and the file was closed successfully.  The file is an object with
+ * arbitrary previous contents (0..OS_PREV_NATIVE bytes): afterwards its length
+ * is the offset and its bytes are the code, whatever was there before. */
 #include "vf_os.h"
 #include "vf.h"
 #include <assemblyline.h>
@@ -34,11 +36,20 @@ void harness(void) {
 #else
   snprintf(path, sizeof path, "/tmp/vf-c19b-%d.bin", (int)getpid());
 #endif
+#ifndef VF_CBMC
+  /* the file exists beforehand with OS_PREV_NATIVE bytes of other contents */
+  { FILE *pf = (fopen)(path, "wb"); if (pf) { for (unsigned i = 0; i < os_file_prev_len; i++) fputc(0xee, pf); (fclose)(pf); } }
+#endif
   int rc = asm_create_bin_file(al, path);
+#ifndef VF_CBMC
+  /* the replay looks at the real file: its length and its bytes */
+  { FILE *rf = (fopen)(path, "rb"); unsigned char fb[256]; size_t n = rf ? fread(fb, 1, sizeof fb, rf) : 0; if (rf) (fclose)(rf);
+    os_file_len = (unsigned)n; for (unsigned i = 0; i < 64 && i < n; i++) os_written[i] = fb[i]; }
+#endif
   CHECK(rc == EXIT_SUCCESS || rc == EXIT_FAILURE, "documented return value");
-  int complete = os_written_n == (unsigned)off && os_fclose_ok && !os_fopen_live;
+  int complete = os_written_n == (unsigned)off && os_file_len == (unsigned)off && os_fclose_ok && !os_fopen_live;
   for (unsigned i = 0; i < BMAX; i++)
-    if (i < os_written_n && i < off) { if (os_written[i] != buf1[i]) complete = 0; }
+    if (i < off) { if (os_written[i] != buf1[i]) complete = 0; }
   if (rc == EXIT_SUCCESS)
     CHECK(complete, "EXIT_SUCCESS only if the complete code [0, offset) reached the file and it was closed");
 #ifndef WITH_FAULTS
